@@ -385,19 +385,10 @@ func dnsScenarioC08(w *dnsWorld) {
 				op.name, op.qtype = w.names[T.Choose(len(w.names))], dnsQtypes[T.Pick(3, 2, 1)]
 			}
 			if op.qtype == dnsmessage.TypeTXT {
-				// a third of the "other type" questions ask SVCB (64), a third HTTPS (65) — derived
-				// from the op number, no extra draw; a name cached under one of the two is asked
-				// for under the other one
-				switch {
-				case w.track.entry(dnsKey{name: op.name, qtype: dnsmessage.TypeSVCB, scope: w.keyOf(op.name, dnsmessage.TypeSVCB).scope}) != nil:
-					op.qtype = dnsmessage.TypeHTTPS
-				case w.track.entry(dnsKey{name: op.name, qtype: dnsmessage.TypeHTTPS, scope: w.keyOf(op.name, dnsmessage.TypeHTTPS).scope}) != nil:
-					op.qtype = dnsmessage.TypeSVCB
-				case op.idx%3 == 1:
-					op.qtype = dnsmessage.TypeSVCB
-				case op.idx%3 == 2:
-					op.qtype = dnsmessage.TypeHTTPS
-				}
+				// most "other type" questions are spread over SVCB/HTTPS and a few uncommon
+				// types below 34 (derived from the op number, no extra draw); a name cached
+				// under one type of a pair is asked for under the other one
+				op.qtype = w.spreadOtherType(op.name, op.idx)
 			}
 			op.qname = w.wireName(op.name, T.Pick(4, 1, 1))
 			ops = append(ops, op)
@@ -517,6 +508,7 @@ func (w *dnsWorld) reloadClone() {
 		s.Failf("harness-dns", "reload: %v", err)
 		return
 	}
+	w.newCtl = nc
 	w.reloads++
 	s.Fault("reload-clone-restore")
 	s.Notef("reload: clone %d entries into a new controller", len(entries))
